@@ -111,6 +111,12 @@ def unregister_stubs():
 
 
 STYLES = ("causal", "centered", "kaldi")
+# "causal+k": frame_style causal with kaldi_shift=True - kaldi_shift is documented to matter only for centered frames
+ALL_STYLES = STYLES + ("causal+k",)
+
+
+def spec_style(st):
+    return "causal" if st == "causal+k" else st
 
 
 def make_stft(L, S, style, bank=None, window=None, pad=False, **kw):
@@ -120,8 +126,8 @@ def make_stft(L, S, style, bank=None, window=None, pad=False, **kw):
         window = F.HammingWindow()
     c = C.STFTFrameComputer(
         bank, frame_length_ms=L, frame_shift_ms=S,
-        frame_style="causal" if style == "causal" else "centered",
-        kaldi_shift=(style == "kaldi"), pad_to_nearest_power_of_two=pad,
+        frame_style="causal" if style in ("causal", "causal+k") else "centered",
+        kaldi_shift=(style in ("kaldi", "causal+k")), pad_to_nearest_power_of_two=pad,
         window_function=window, **kw)
     if c.frame_length != L or c.frame_shift != S:
         raise RuntimeError("tiny-instance assumption broken: asked L=%d S=%d got %d %d" % (L, S, c.frame_length, c.frame_shift))
